@@ -79,7 +79,7 @@ impl Monitor for C12 {
         vec![("aggregate", tier.pick(8400, 168_000)), ("ties", tier.pick(600, 12_000))]
     }
     fn rule(&self) -> &'static str {
-        "case i -> objective (i mod 7), data-set size from {1,2,3,40,63,64,65,127,128,129,200,257} (i/7 mod 12; the parallel chunk is 64), soft-max output or not, output width 1 or >1, tolerance log-uniform in [1e-6,0.5], pool of 1..16 threads; random network ending in a dense layer (dense/conv/deconv/pool before it). Targets are generated from the network's own predictions so that every component is clearly inside (|t-p| <= tol/2) or clearly outside (>= 2 tol + 0.01) the tolerance and arg-max ties do not occur. Oracle: harness-side aggregation over the library's own predict() and objective loss(): mean loss (f64, bound n*eps), accuracy by the stated rule; predict_batch(xs)[i] must be bit-equal to predict(xs[i]) in input order (also for 0 inputs), predict(x) bit-equal to the last activation of forward(x). ties: soft-max outputs with exactly equal maxima (uniform distribution): the accuracy must equal the frequency of some single class among the targets, whatever the tie-breaking convention. Distinct = distinct (network, objective, size, tolerance) descriptors."
+        "case i -> objective (i mod 7), data-set size from {1,2,3,40,63,64,65,127,128,129,200,257} (i/7 mod 12; the parallel chunk is 64), soft-max output or not, output width 1 or >1, tolerance from {f32::MIN_POSITIVE, 1e-9, log-uniform [1e-12,1e-6], log-uniform [1e-6,0.5]}, pool of 1..16 threads; random network ending in a dense layer (dense/conv/deconv/pool before it). Targets are generated from the network's own predictions so that every component is clearly inside (an exact hit or |t-p| <= tol/2) or clearly outside (>= 2 tol + 0.01) the tolerance and arg-max ties do not occur. Oracle: harness-side aggregation over the library's own predict() and objective loss(): mean loss (f64, bound n*eps), accuracy by the stated rule; predict_batch(xs)[i] must be bit-equal to predict(xs[i]) in input order (also for 0 inputs), predict(x) bit-equal to the last activation of forward(x). ties: soft-max outputs with exactly equal maxima (uniform distribution): the accuracy must equal the frequency of some single class among the targets, whatever the tie-breaking convention. Distinct = distinct (network, objective, size, tolerance) descriptors."
     }
     fn assumptions(&self) -> Vec<&'static str> {
         vec!["boundary semantics (|t-p| == tol, arg-max ties, NaN losses) are unspecified and not generated", "per-sample predict() and loss() are trusted here (they are the subject of C02/C06)"]
@@ -93,7 +93,12 @@ impl Monitor for C12 {
         let n = SIZES[((idx / 7) % 12) as usize];
         let softmax = (idx / 84) % 3 == 0;
         let wide = (idx / 84) % 2 == 0 || softmax;
-        let tol = rng.log_in(1e-6, 0.5) as f32;
+        let tol = match rng.range(0, 7) {
+            0 => f32::MIN_POSITIVE,
+            1 => 1e-9,
+            2 => rng.log_in(1e-12, 1e-6) as f32,
+            _ => rng.log_in(1e-6, 0.5) as f32,
+        };
         let threads = *rng.pick(&[1usize, 2, 3, 4, 8, 16]);
         let mut o = NetOpts::standard();
         o.max_depth = 3;
@@ -111,7 +116,15 @@ impl Monitor for C12 {
             insert_block(&mut rng, &mut cfg, 3);
         }
         let last = cfg.layers.len() - 1;
-        let params = gen_params(&cfg, &mut rng, -1.0, 1.0).unwrap();
+        let mut params = gen_params(&cfg, &mut rng, -1.0, 1.0).unwrap();
+        // every sixth non-probabilistic case: outputs of magnitude ~50 (linear output layer)
+        if idx % 6 == 5 && !obj.probabilistic() && !softmax {
+            if let LCfg::Dense { act, .. } = &mut cfg.layers[last] {
+                *act = Act::Linear;
+            }
+            let scaled: Vec<f32> = params[last].flat().iter().map(|v| v * 50.0).collect();
+            params[last].set_flat(&scaled);
+        }
         let mut out = Out::new(format!("{} {} n{} tol{:e} softmax{} threads{}", obj.name(), cfg.describe(), n, tol, softmax, threads));
         out.cover("sizes", n.to_string());
         out.cover("objective_x_accuracy_rule", format!("{}/{}", obj.name(), if softmax { "argmax" } else if wide { "fraction" } else { "single" }));
@@ -159,7 +172,7 @@ impl Monitor for C12 {
                         .iter()
                         .map(|v| {
                             let inside = rng.bool();
-                            let mut t = if inside { v + tol * 0.5 * if rng.bool() { 1.0 } else { -1.0 } } else { v + (2.0 * tol + 0.01) * if rng.bool() { 1.0 } else { -1.0 } };
+                            let mut t = if inside && rng.bool() { *v } else if inside { v + tol * 0.5 * if rng.bool() { 1.0 } else { -1.0 } } else { v + (2.0 * tol + 0.01) * if rng.bool() { 1.0 } else { -1.0 } };
                             if obj.probabilistic() {
                                 // keep targets inside [0,1] without changing the side of the tolerance
                                 if t < 0.0 || t > 1.0 {
